@@ -100,7 +100,7 @@ def c01_detached_more(E):
 HARNESSES = [
     H("c01_k1", c01_k1, quick=dict(max_paths=30000, time_budget=60), thorough=dict(max_paths=200000, time_budget=200),
       witness_every=20,
-      bounds="base model (4 reactions, 2 metabolites, 3 genes, 1 group), reaction R1 with symbolic coefficients in [1/4,4] and "
+      bounds="base model (5 reactions, 3 metabolites - one used by a single reaction -, 3 genes, 1 group), reaction R1 with symbolic coefficients in [1/4,4] and "
              "bounds in [-2000,2000]; every one of the %d operations x all its argument shapes, once" % len(OPS)),
     H("c01_k2_sub", c01_k2_sub, tiers=("quick",), quick=dict(max_paths=60000, time_budget=90), witness_every=50,
       bounds="all pairs from the sub-alphabet %s + enter/exit; R1 with symbolic bounds (concrete coefficients)" % SUB1),
